@@ -1,7 +1,7 @@
 ------------------------------ MODULE ConcCL ------------------------------
 (***************************************************************************)
-(* Threads x micro-steps model of callbacklist.h (append, insert, remove,   *)
-(* invoke) under sequentially consistent memory: getNextCounter as an      *)
+(* Threads x micro-steps model of callbacklist.h (append, prepend, insert,  *)
+(* remove, ownsHandle, empty, invoke) under sequentially consistent memory: getNextCounter as an      *)
 (* atomic step, before.lock() of insert as an unlocked step, every critical *)
 (* section as one step, the traversal as {head under the mutex; read the   *)
 (* counter; test the node's counter; step next under the mutex}.  Thread    *)
@@ -65,6 +65,9 @@ Start(t) ==
        [] Op(t).k = "insert" -> Goto(t, "i_lockh")
        [] Op(t).k = "remove" -> Goto(t, "r_lock")
        [] Op(t).k = "invoke" -> Goto(t, "v_lock")
+       [] Op(t).k = "prepend" -> Goto(t, "a_ctr")
+       [] Op(t).k = "owns" -> Goto(t, "o_lock")
+       [] Op(t).k = "empty" -> Goto(t, "e_read")
   /\ mustVisit' = [mustVisit EXCEPT ![t] = IF Op(t).k = "invoke" THEN {n \in Nodes : InSeq(alist, n)} ELSE @]
   /\ visited' = [visited EXCEPT ![t] = <<>>]
   /\ UNCHANGED <<head, tail, nxt, prv, gen, nalloc, freed, cur, mtx, prog, ip, loc, alist, bad>>
@@ -81,12 +84,16 @@ LinkTail(n) == <<IF head = 0 THEN n ELSE head, n, IF head = 0 THEN nxt ELSE [nxt
 ACs(t) ==
   /\ pc[t] = "a_cs" /\ mtx = t /\ mtx' = 0
   /\ LET n == loc[t].node  b == loc[t].b  lc == [loc EXCEPT ![t] = NoLoc] IN
-     /\ IF b # 0 /\ (Fixed("stale") => gen[b] # 0)
+     /\ IF Op(t).k = "prepend"
+        THEN (IF head = 0 THEN Commit(n, n, nxt, prv, gen, nalloc, lc)
+              ELSE Commit(n, tail, [nxt EXCEPT ![n] = head], [prv EXCEPT ![head] = n], gen, nalloc, lc))
+        ELSE IF b # 0 /\ (Fixed("stale") => gen[b] # 0)
         THEN Commit(IF b = head THEN n ELSE head, tail,
                     IF prv[b] # 0 THEN [nxt EXCEPT ![n] = b, ![prv[b]] = n] ELSE [nxt EXCEPT ![n] = b],
                     [prv EXCEPT ![n] = prv[b], ![b] = n], gen, nalloc, lc)
         ELSE LET l == LinkTail(n) IN Commit(l[1], l[2], l[3], l[4], gen, nalloc, lc)
-     /\ alist' = IF Op(t).k = "insert" /\ InSeq(alist, Op(t).h)
+     /\ alist' = IF Op(t).k = "prepend" THEN <<n>> \o alist
+                 ELSE IF Op(t).k = "insert" /\ InSeq(alist, Op(t).h)
                  THEN LET p == Pos(alist, Op(t).h) IN SubSeq(alist, 1, p - 1) \o <<n>> \o SubSeq(alist, p, Len(alist))
                  ELSE Append(alist, n)
   /\ Done(t) /\ UNCHANGED <<cur, prog, visited, mustVisit, bad>>
@@ -107,6 +114,18 @@ RCs(t) ==
      /\ alist' = SelectSeq(alist, LAMBDA x : x # Op(t).h)
      /\ mustVisit' = [u \in Threads |-> mustVisit[u] \ {Op(t).h}]                \* no longer "stayed for the whole duration"
   /\ Done(t) /\ UNCHANGED <<cur, prog, visited>>
+
+\* ---- ownsHandle: lock; handle.lock(); walk previous to the root; compare with head; unlock.   empty(): one unlocked read of head
+RECURSIVE RootOf(_,_)
+RootOf(n, fuel) == IF fuel = 0 \/ prv[n] = 0 THEN n ELSE RootOf(prv[n], fuel - 1)
+OLock(t) == /\ pc[t] = "o_lock" /\ mtx = 0 /\ mtx' = t /\ Goto(t, "o_cs") /\ Keep
+            /\ UNCHANGED <<cur, prog, ip, loc, alist, visited, mustVisit, bad>>
+OCs(t) == /\ pc[t] = "o_cs" /\ mtx = t /\ mtx' = 0
+          /\ LET n == Lock(Op(t).h)  res == n # 0 /\ (Fixed("stale") => gen[n] # 0) /\ RootOf(n, MaxNodes + 1) = head IN
+             bad' = IF res # InSeq(alist, Op(t).h) THEN "owns-result" ELSE bad
+          /\ Done(t) /\ Keep /\ UNCHANGED <<cur, prog, loc, alist, visited, mustVisit>>
+ERead(t) == /\ pc[t] = "e_read" /\ bad' = IF (head = 0) # (alist = <<>>) /\ mtx = 0 THEN "empty-result" ELSE bad
+            /\ Done(t) /\ Keep /\ UNCHANGED <<cur, mtx, prog, loc, alist, visited, mustVisit>>
 
 \* ---- invoke: lock; node = head; unlock; counter = cur; loop { read node.counter; call; lock; node = node.next; unlock }
 VLock(t) == /\ pc[t] = "v_lock" /\ mtx = 0 /\ mtx' = t /\ Goto(t, "v_head") /\ Keep
@@ -133,7 +152,7 @@ VStep(t) == /\ pc[t] = "v_step" /\ mtx = t /\ mtx' = 0
             /\ Commit(head, tail, nxt, prv, gen, nalloc, SetLoc(t, "t", nxt[loc[t].t]))
             /\ Goto(t, "v_test") /\ UNCHANGED <<cur, prog, ip, alist, visited, mustVisit, bad>>
 
-Step(t) == Start(t) \/ ILockH(t) \/ ACtr(t) \/ ALock(t) \/ ACs(t) \/ RLock(t) \/ RCs(t)
+Step(t) == OLock(t) \/ OCs(t) \/ ERead(t) \/ Start(t) \/ ILockH(t) \/ ACtr(t) \/ ALock(t) \/ ACs(t) \/ RLock(t) \/ RCs(t)
            \/ VLock(t) \/ VHead(t) \/ VCtr(t) \/ VTest(t) \/ VStepLock(t) \/ VStep(t)
 Next == (\E t \in Threads : Step(t)) /\ UNCHANGED prog
 
